@@ -96,10 +96,17 @@ pub fn exchange(addr: SocketAddr, req: &HttpReq, enc: Encoding, write_sizes: &[u
     let _ = s.set_nodelay(true);
     let total: usize = req.chunks.iter().map(|c| c.len()).sum();
     let mut head = Vec::new();
-    head.extend_from_slice(format!("{} {} HTTP/1.1\r\nHost: {}\r\nConnection: close\r\n", req.method, req.path, addr).as_bytes());
+    // the pseudo header ":http-version: 1.0" asks for an HTTP/1.0 request (which knows no chunked
+    // transfer coding)
+    let http10 = req.headers.iter().any(|(n, v)| n == crate::driver::VERSION_PSEUDO_HEADER && v == b"1.0");
+    let enc = if http10 { Encoding::ContentLength } else { enc };
+    // a transfer that breaks: chunked, and after so many good chunks the framing turns to garbage
+    let brk = if http10 { None } else { crate::driver::break_plan(req) };
+    let enc = if brk.is_some() { Encoding::Chunked } else { enc };
+    head.extend_from_slice(format!("{} {} HTTP/{}\r\nHost: {}\r\nConnection: close\r\n", req.method, req.path, if http10 { "1.0" } else { "1.1" }, addr).as_bytes());
     for (n, v) in &req.headers {
         // the framing headers are this function's business
-        if n.eq_ignore_ascii_case("content-length") || n.eq_ignore_ascii_case("transfer-encoding") {
+        if n.eq_ignore_ascii_case("content-length") || n.eq_ignore_ascii_case("transfer-encoding") || n == crate::driver::VERSION_PSEUDO_HEADER || n == crate::driver::BREAK_PSEUDO_HEADER {
             continue;
         }
         head.extend_from_slice(n.as_bytes());
@@ -108,6 +115,10 @@ pub fn exchange(addr: SocketAddr, req: &HttpReq, enc: Encoding, write_sizes: &[u
         head.extend_from_slice(b"\r\n");
     }
     let has_body = !req.chunks.is_empty();
+    if http10 && !has_body && !matches!(req.method.as_str(), "GET" | "HEAD") {
+        // RFC 1945 8.3: "A valid Content-Length is required on all HTTP/1.0 POST requests"
+        head.extend_from_slice(b"Content-Length: 0\r\n");
+    }
     if has_body {
         match enc {
             Encoding::ContentLength => head.extend_from_slice(format!("Content-Length: {total}\r\n").as_bytes()),
@@ -120,7 +131,25 @@ pub fn exchange(addr: SocketAddr, req: &HttpReq, enc: Encoding, write_sizes: &[u
     let wr = (|| -> std::io::Result<()> {
         write_all_in_pieces(&mut s, &head, write_sizes, &mut k)?;
         if has_body {
+            let mut sent = 0usize;
             for c in &req.chunks {
+                if let Some((after, kind)) = brk {
+                    if sent >= after {
+                        // not a chunk-size line
+                        let junk: &[u8] = match kind % 3 {
+                            0 => b"zz\r\nxxxx\r\n",
+                            1 => b"ffffffffffffffffffffff\r\n",
+                            _ => b"\r\n\r\n",
+                        };
+                        s.write_all(junk)?;
+                        s.flush()?;
+                        let _ = s.shutdown(std::net::Shutdown::Write);
+                        return Ok(());
+                    }
+                }
+                if !c.is_empty() {
+                    sent += 1;
+                }
                 match enc {
                     Encoding::ContentLength => write_all_in_pieces(&mut s, c, write_sizes, &mut k)?,
                     Encoding::Chunked => {
@@ -132,6 +161,12 @@ pub fn exchange(addr: SocketAddr, req: &HttpReq, enc: Encoding, write_sizes: &[u
                         s.write_all(b"\r\n")?;
                     }
                 }
+            }
+            if brk.is_some() {
+                s.write_all(b"zz\r\nxxxx\r\n")?;
+                s.flush()?;
+                let _ = s.shutdown(std::net::Shutdown::Write);
+                return Ok(());
             }
             if enc == Encoding::Chunked {
                 s.write_all(b"0\r\n\r\n")?;
@@ -187,7 +222,7 @@ impl KeepAlive {
             let mut msg = Vec::new();
             msg.extend_from_slice(format!("{} {} HTTP/1.1\r\nHost: {}\r\n", req.method, req.path, self.addr).as_bytes());
             for (n, v) in &req.headers {
-                if n.eq_ignore_ascii_case("content-length") || n.eq_ignore_ascii_case("transfer-encoding") || n.eq_ignore_ascii_case("connection") {
+                if n.eq_ignore_ascii_case("content-length") || n.eq_ignore_ascii_case("transfer-encoding") || n.eq_ignore_ascii_case("connection") || n == crate::driver::VERSION_PSEUDO_HEADER || n == crate::driver::BREAK_PSEUDO_HEADER {
                     continue;
                 }
                 msg.extend_from_slice(n.as_bytes());
